@@ -109,6 +109,21 @@ let rec spec_of (x:sx) : spec =
     SOptFlagged (n_of_hex (atom f), None, z_of_hex (atom mask), spec_of sp)
   | L [A "optflagged"; f; L tbl; mask; sp] ->
     SOptFlagged (n_of_hex (atom f), Some (tbl_of tbl), z_of_hex (atom mask), spec_of sp)
+  | L (A "ctxswitch" :: f :: cs) ->
+    SCtxSwitch (n_of_hex (atom f), List.map (fun c -> match c with
+        | L [A "none"; s] -> (None, spec_of s)
+        | L [k; s] -> (Some (z_of_hex (atom k)), spec_of s)
+        | _ -> failwith "choice") cs)
+  | L [A "ctxadapter"; f; L opts; sp] ->
+    SCtxAdapter (n_of_hex (atom f), List.map (fun o -> match o with
+        | L [k; a] ->
+          ((match k with A "none" -> None | _ -> Some (z_of_hex (atom k))),
+           (match a with L [A "none"] -> None | _ -> Some (sadapter_of a)))
+        | _ -> failwith "option") opts, spec_of sp)
+  | L (A "flagswitch" :: L tbl :: k :: w :: cs) ->
+    SFlagSwitch (tbl_of tbl, iprim_of k w, List.map (fun c -> match c with
+        | L [n; z; s] -> ((n_of_hex (atom n), z_of_hex (atom z)), spec_of s)
+        | _ -> failwith "choice") cs)
   | L (A "enumswitch" :: L tbl :: strict :: k :: w :: cs) ->
     SEnumSwitch (tbl_of tbl, flag strict, iprim_of k w,
                  List.map (fun c -> match c with L [z; s] -> (z_of_hex (atom z), spec_of s) | _ -> failwith "choice") cs)
